@@ -24,7 +24,28 @@ Definition val := N.
 (* fault schedules *)
 
 Inductive fmode := FromK | OnlyK.
-Record fault := mkFault { fk : nat; fm : fmode; fid : N }.
+
+(* What a failing call returns.  io.ReaderAt / io.Reader may return data
+   together with the error:
+     FKErr      (0, err)
+     FKPartial  (n, err) with 0 < n < len(p)
+     FKFull     (len(p), err)
+   What the reading code makes of data that comes with an error depends on the
+   bytes (is the part that arrived enough for what the caller wants?), which the
+   language does not see; it is an extra input of the semantics, one decision
+   per source call:
+     NeedMore   the caller asks for more and gets the latched error
+     Enough     the caller is served from the part that arrived
+     Dropped    io.ReadFull / io.CopyN received exactly what they asked for and
+                dropped the error (the data is complete, nothing is latched)
+     ShortTaken the short data is taken for the end of the input - what
+                scanner.PeekN does when its own refill received fewer bytes than
+                its window; the surfacing theorem excludes this decision *)
+Inductive fkind := FKErr | FKPartial | FKFull.
+Inductive pdec := NeedMore | Enough | Dropped | ShortTaken.
+Record fault := mkFault { fk : nat; fm : fmode; fid : N; fkd : fkind; forc : nat -> pdec }.
+
+Definition plain_fault (k : nat) (m : fmode) (e : N) : fault := mkFault k m e FKErr (fun _ => NeedMore).
 
 (* does the n-th ReadAt call (1-based) fail? *)
 Definition fires (f : option fault) (n : nat) : option N :=
@@ -149,6 +170,41 @@ Definition read_fail (s : st) (e : N) : st :=
 Definition read_ok (s : st) : st :=
   mkSt (S (reads s)) (lat s) (chk s) (recorded s) (fired s) (swallowed s).
 
+(* the error came with all the data and was dropped by io.ReadFull *)
+Definition read_dropped (s : st) : st :=
+  mkSt (S (reads s)) (lat s) (chk s) (recorded s) true (swallowed s).
+
+(* is the read made by a buffering consumer (a scanner's refill, a filter chain
+   feeding one) rather than by a probe that looks at err first? *)
+Definition buffered_ctx (s : st) : bool :=
+  match lat s, chk s with
+  | Armed, _ => true
+  | _, Some _ => true
+  | _, _ => false
+  end.
+
+(* a truncated value, different from every complete one of [default_file] *)
+Definition short_of (v : val) : val := 0%N.
+
+(* the failing call, n-th of the run *)
+Definition read_faulted (file : N -> val) (f : option fault) (s : st) (e : N) (off : N) (n : nat) : res val * st :=
+  match f with
+  | None => (Err (IO e), read_fail s e)
+  | Some ft =>
+      match fkd ft with
+      | FKErr => (Err (IO e), read_fail s e)
+      | _ =>
+          if buffered_ctx s then
+            match forc ft n with
+            | NeedMore => (Err (IO e), read_fail s e)
+            | Enough => (Ok (file off), read_fail s e)
+            | Dropped => (Ok (file off), read_dropped s)
+            | ShortTaken => (Ok (short_of (file off)), read_fail s e)
+            end
+          else (Err (IO e), read_fail s e)     (* `if err != nil && err != io.EOF { return err }` *)
+      end
+  end.
+
 Definition reclass (c : cls) : cls :=
   match c with EOF => EOF | _ => Malformed end.
 
@@ -165,7 +221,7 @@ Section Eval.
         | Tripped e => (Err (IO e), s)           (* refill returns s.err without reading *)
         | _ =>
             match fires f (S (reads s)) with
-            | Some e => (Err (IO e), read_fail s e)
+            | Some e => read_faulted file f s e off (S (reads s))
             | None => (Ok (file off), read_ok s)
             end
         end
@@ -194,10 +250,12 @@ Section Eval.
     | Latch p =>
         let (r, s') := eval p (set_lat s Armed) in (r, set_lat s' (lat s))
     | SrcCheck p =>
-        let (r, s') := eval p (set_chk s (Some None)) in
+        (* the chain reads its own source: the latch of a scanner around it does
+           not apply to those reads, only to what comes out of the chain *)
+        let (r, s') := eval p (set_lat (set_chk s (Some None)) NoLatch) in
         match r, chk s' with
-        | Err _, Some (Some e) => (Err (IO e), set_chk s' (chk s))
-        | _, _ => (r, set_chk s' (chk s))
+        | Err _, Some (Some e) => (Err (IO e), set_lat (set_chk s' (chk s)) (lat s))
+        | _, _ => (r, set_lat (set_chk s' (chk s)) (lat s))
         end
     | Reclass p =>
         match eval p s with
@@ -264,8 +322,8 @@ Definition default_file (off : N) : val := (off + 1)%N.
 (* one read of the given kind; [i] makes the values distinguishable *)
 Definition read_one (k : rkind) (i : N) : prog :=
   match k with
-  | KRefill => Latch (ReadAt i)
-  | KProbe | KDiscard | KUnknown => ReadAt i
+  | KRefill | KDiscard => Latch (ReadAt i)       (* io.ReadFull / io.CopyN: error returned or latched *)
+  | KProbe | KUnknown => ReadAt i
   | KBody => Latch (SrcCheck (Reclass (ReadAt i)))
   | KLength =>
       (* n, err := s.getInt(lengthObj); if IsReadError(err) { return nil, err }: only
@@ -394,12 +452,35 @@ Definition inj_id : N := 77.
 Definition run_clean (p : prog) : res val * st := eval default_file None p st0.
 
 Definition outcome_at (p : prog) (fmd : fmode) (k : nat) : outcome :=
-  classify inj_id (fst (run_clean p)) (fst (eval default_file (Some (mkFault k fmd inj_id)) p st0)).
+  classify inj_id (fst (run_clean p)) (fst (eval default_file (Some (plain_fault k fmd inj_id)) p st0)).
 
 (* outcomes for every k = 1 .. number of reads of the fault-free run *)
 Definition outcomes (p : prog) (fmd : fmode) : list outcome :=
   let c := run_clean p in
-  map (fun k => classify inj_id (fst c) (fst (eval default_file (Some (mkFault k fmd inj_id)) p st0)))
+  map (fun k => classify inj_id (fst c) (fst (eval default_file (Some (plain_fault k fmd inj_id)) p st0)))
+      (seq 1%nat (reads (snd c))).
+
+(* one-shot faults that deliver data together with the error: what happens
+   depends on a decision the language does not see, so the prediction is the set
+   of outcomes over the three admissible decisions *)
+Inductive prediction := PExact (o : outcome) | PSameOrIO.
+
+Definition outcome_eqb (a b : outcome) : bool :=
+  match a, b with
+  | OSame, OSame | OIO, OIO | OMalformed, OMalformed | ODifferent, ODifferent | OOtherErr, OOtherErr => true
+  | _, _ => false
+  end.
+
+Definition same_or_io (o : outcome) : bool := match o with OSame | OIO => true | _ => false end.
+
+Definition predictions_partial (p : prog) (kd : fkind) : list prediction :=
+  let c := run_clean p in
+  let run k d := classify inj_id (fst c) (fst (eval default_file (Some (mkFault k OnlyK inj_id kd (fun _ => d))) p st0)) in
+  map (fun k =>
+         let a := run k NeedMore in let b := run k Enough in let d := run k Dropped in
+         if outcome_eqb a b && outcome_eqb b d then PExact a
+         else if same_or_io a && same_or_io b && same_or_io d then PSameOrIO
+         else PExact OOtherErr)
       (seq 1%nat (reads (snd c))).
 
 (* what the harness reads off the fault-free run *)
